@@ -67,54 +67,10 @@ Proof.
   - cbn [flat_map]. rewrite (IH Hl). reflexivity.
 Qed.
 
-(* ================= prefixes ================= *)
-Lemma sw_app_l pre a b : starts_with (pre ++ a) (pre ++ b) = starts_with a b.
-Proof.
-  induction pre as [|x pre IH]; cbn [app]; [reflexivity|].
-  rewrite sw_cons, N.eqb_refl. exact IH.
-Qed.
-
-Lemma sw_true_iff p : forall q, starts_with q p = true <-> exists r, q = p ++ r.
-Proof.
-  induction p as [|x p IH]; intros q.
-  - rewrite sw_nil. split; [intros _; exists q; reflexivity|reflexivity].
-  - destruct q as [|y q].
-    + rewrite sw_nil_cons. split; [discriminate|]. intros (r & Hr). discriminate Hr.
-    + rewrite sw_cons, andb_true_iff, N.eqb_eq, IH. split.
-      * intros [-> (r & ->)]. exists r. reflexivity.
-      * intros (r & Hr). cbn [app] in Hr. inversion Hr; subst. split; [reflexivity|]. exists r. reflexivity.
-Qed.
-
+(* ================= prefixes (sw_app_l, sw_true_iff, sw_ext, cget_app, cwf_cget: now in Struct_proofs) ================= *)
 Lemma sw_mid pre k' r' k r :
   starts_with (pre ++ k' :: r') (pre ++ k :: r) = N.eqb k k' && starts_with r' r.
 Proof. rewrite sw_app_l, sw_cons. reflexivity. Qed.
-
-(* a prefix of an extension of a: comparable with a *)
-Lemma sw_ext a : forall r b, starts_with (a ++ r) b = true -> starts_with a b = true \/ starts_with b a = true.
-Proof.
-  induction a as [|x a IH]; intros r b H.
-  - right. apply sw_nil.
-  - destruct b as [|y b]; [left; apply sw_nil|].
-    cbn [app] in H. rewrite sw_cons in H. apply andb_true_iff in H. destruct H as [Hxy H].
-    rewrite !sw_cons. rewrite Hxy. apply N.eqb_eq in Hxy. subst y. rewrite N.eqb_refl. cbn [andb].
-    apply (IH r b H).
-Qed.
-
-Lemma cget_app t p : forall r, cget t (p ++ r) = match cget t p with Some x => cget x r | None => None end.
-Proof.
-  revert t. induction p as [|k p IH]; intros t r; [reflexivity|].
-  cbn [app]. destruct t as [u v d|u pi|u g c]; try reflexivity.
-  rewrite !cget_cons. destruct (alookup k c) as [ch|]; [apply IH|reflexivity].
-Qed.
-
-Lemma cwf_cget t p : forall x, cwf t -> cget t p = Some x -> cwf x.
-Proof.
-  revert t. induction p as [|k p IH]; intros t x Hw H.
-  - cbn in H. inversion H; subst. exact Hw.
-  - destruct t as [u v d|u pi|u g c]; try discriminate H.
-    rewrite cget_cons in H. destruct (alookup k c) as [ch|] eqn:El; [|discriminate H].
-    apply (IH ch x (cwf_child u g c k ch Hw El) H).
-Qed.
 
 (* ================= process nodes of a tree ================= *)
 Lemma cdepth_dir u g c pre :
